@@ -17,6 +17,9 @@ import (
 	"seehuhn.de/go/pdf/font/glyphdata"
 	"seehuhn.de/go/pdf/font/glyphdata/type1glyphs"
 	"seehuhn.de/go/pdf/font/verifhook"
+	pdfimage "seehuhn.de/go/pdf/graphics/image"
+	"seehuhn.de/go/pdf/page"
+	"seehuhn.de/go/pdf/pagetree"
 	"seehuhn.de/go/postscript/type1"
 )
 
@@ -306,6 +309,187 @@ func c05gDCT(kind string, trail int, fill string, consume string) (ok bool, nont
 	return true, r.n > 0 || consume == "none", "", fmt.Sprintf("read=%d err=%v", r.n, r.err)
 }
 
+// ---- a failing layer ABOVE a DCT layer ----
+//
+// /Filter [/DCTDecode /X] with X in {ASCIIHexDecode, LZWDecode, FlateDecode}: the JPEG is valid and
+// large (256 x 256 gray, 64 KiB of pixels, far more than the pipe and the buffers hold), the pixels
+// are what X reads — and they are not valid X data: X fails in the middle of the stream.  The readers
+// of these three filters report their latched error again from Close.  Life cycle: read until the
+// error, Close (its error is of no interest), settle: the goroutine of dct.Decode, parked in a pipe
+// write with most of its output pending, must be gone — DecodeStream's reader has to close EVERY
+// layer, whatever the top layer's Close returns.  Directly through DecodeStream and through the page
+// (page.Decode, the image XObject of the resources, Pixels()), in the three error-handling modes.
+// Descriptor "chain <AHx|LZW|Fl> <mode 0..2> <direct|page> 0".
+
+var c05gChainCache = map[string][]byte{}
+
+// c05gChainJPEG: the JPEG whose pixels the upper layer reads.  AHx: the upper half is 'A' (0x41),
+// exactly (uniform 8x8 blocks at quality 100), the lower half 'Z': 16 KiB of output, then the error.
+// LZW, Fl: noise; the first of 64 seeds for which the upper layer delivers output before it fails
+// (else the first for which it fails at all).
+func c05gChainJPEG(top string) []byte {
+	if b, ok := c05gChainCache[top]; ok {
+		return b
+	}
+	enc := func(fill func(pix []byte)) []byte {
+		g := image.NewGray(image.Rect(0, 0, 256, 256))
+		fill(g.Pix)
+		var buf bytes.Buffer
+		if jpeg.Encode(&buf, g, &jpeg.Options{Quality: 100}) != nil {
+			return nil
+		}
+		return buf.Bytes()
+	}
+	var best []byte
+	if top == "AHx" {
+		best = enc(func(pix []byte) {
+			for i := range pix {
+				pix[i] = 'A'
+				if i >= len(pix)/2 {
+					pix[i] = 'Z'
+				}
+			}
+		})
+	} else {
+		var f pdf.Filter = pdf.FilterLZW{}
+		if top == "Fl" {
+			f = pdf.FilterFlate{}
+		}
+		for seed := uint32(1); seed <= 64; seed++ {
+			j := enc(func(pix []byte) {
+				x := seed
+				for i := range pix {
+					x = x*1664525 + 1013904223
+					pix[i] = byte(x >> 24)
+				}
+				if top == "Fl" { // a zlib header and a stored block of 4096 pixels, as far as JPEG keeps them
+					copy(pix, []byte{0x78, 0x01, 0x00, 0x00, 0x10, 0xFF, 0xEF})
+				}
+			})
+			budget := membudget.New(64 << 20)
+			px, err := pdf.FilterDCT{}.Decode(pdf.V2_0, bytes.NewReader(j), budget)
+			if err != nil {
+				continue
+			}
+			pixels, _ := io.ReadAll(px)
+			px.Close()
+			rd, err := f.Decode(pdf.V2_0, bytes.NewReader(pixels), budget)
+			if err != nil {
+				continue // a failing construction is another family (filtersB: cfail)
+			}
+			n, err := io.Copy(io.Discard, rd)
+			rd.Close()
+			if err == nil {
+				continue
+			}
+			if best == nil {
+				best = j
+			}
+			if n > 0 {
+				best = j
+				break
+			}
+		}
+	}
+	c05gChainCache[top] = best
+	return best
+}
+
+func c05gChainDoc(top string) []byte {
+	j := c05gChainJPEG(top)
+	if j == nil {
+		return nil
+	}
+	name := map[string]string{"AHx": "ASCIIHexDecode", "LZW": "LZWDecode", "Fl": "FlateDecode"}[top]
+	content := "q 100 0 0 100 0 0 cm /Im0 Do Q"
+	return c05eFile([]string{"<< /Type /Catalog /Pages 2 0 R >>", "<< /Type /Pages /Kids [3 0 R] /Count 1 >>",
+		"<< /Type /Page /Parent 2 0 R /MediaBox [0 0 100 100] /Contents 5 0 R /Resources << /XObject << /Im0 4 0 R >> >> >>",
+		fmt.Sprintf("<< /Type /XObject /Subtype /Image /Width 256 /Height 128 /ColorSpace /DeviceGray /BitsPerComponent 8 /Filter [/DCTDecode /%s] /Length %d >>\nstream\n%s\nendstream", name, len(j), j),
+		fmt.Sprintf("<< /Length %d >>\nstream\n%s\nendstream", len(content), content)})
+}
+
+func c05gChain(top string, mode int, via string) (ok bool, nontrivial bool, key, desc string) {
+	data := c05gChainDoc(top)
+	if data == nil {
+		return true, false, "", "no image for this chain"
+	}
+	before := runtime.NumGoroutine()
+	type res struct {
+		n    int
+		err  error
+		cerr error
+		pan  any
+	}
+	done := make(chan res, 1)
+	go func() {
+		var r res
+		defer func() {
+			r.pan = recover()
+			done <- r
+		}()
+		rdr, err := pdf.NewReader(bytes.NewReader(data), int64(len(data)), &pdf.ReaderOptions{ErrorHandling: c05ModeValue(mode)})
+		if err != nil {
+			r.err = err
+			return
+		}
+		defer rdr.Close()
+		if via == "direct" {
+			obj, err := rdr.Get(pdf.NewReference(4, 0), true)
+			stm, _ := obj.(*pdf.Stream)
+			if err != nil || stm == nil {
+				r.err = fmt.Errorf("no stream: %v", err)
+				return
+			}
+			rd, err := pdf.DecodeStream(rdr, nil, stm)
+			if err != nil {
+				r.err = err
+				return
+			}
+			buf := make([]byte, 512)
+			for r.err == nil {
+				var k int
+				k, r.err = rd.Read(buf)
+				r.n += k
+			}
+			r.cerr = rd.Close()
+			return
+		}
+		x := pdf.NewExtractor(rdr)
+		for _, dict := range pagetree.NewIterator(rdr).All() {
+			pg, err := pdf.Decode(pdf.CursorAt(x, nil), dict, page.Decode)
+			if err != nil || pg == nil || pg.Resources == nil {
+				r.err = fmt.Errorf("no page: %v", err)
+				continue
+			}
+			for _, xo := range pg.Resources.XObject {
+				if img, isImg := xo.(*pdfimage.Dict); isImg && img.Data != nil {
+					px, err := img.Data.Pixels()
+					r.n, r.err = len(px), err
+				}
+			}
+		}
+	}()
+	var r res
+	select {
+	case r = <-done:
+	case <-time.After(c05gWatchdog):
+		return false, true, "C05-hang", fmt.Sprintf("reading/closing the chain did not return within %v", c05gWatchdog)
+	}
+	if r.pan != nil {
+		return false, true, "C05-panic-filter-chain", fmt.Sprintf("panic: %v", r.pan)
+	}
+	failed := r.err != nil && r.err != io.EOF
+	left := c05gSettle(before)
+	if left > 0 {
+		if n, info := c05LibGoroutines(); n > 0 {
+			return false, failed, "C05-goroutine-leak-dct-below-failing-layer",
+				fmt.Sprintf("%d goroutine(s) still running after the decoded stream was closed (%d bytes read, err=%v, Close=%v), e.g. in %s", n, r.n, r.err, r.cerr, info)
+		}
+	}
+	// non-trivial: the upper layer did fail at read time (after construction)
+	return true, failed, "", fmt.Sprintf("read=%d err=%v close=%v", r.n, r.err, r.cerr)
+}
+
 // ---- run and replay ----
 
 func c05gRunCase(desc string) (ok bool, nontrivial bool, key, detail string) {
@@ -320,6 +504,8 @@ func c05gRunCase(desc string) (ok bool, nontrivial bool, key, detail string) {
 		return c05gType1(f[1], trail, f[3], chunk)
 	case "dct":
 		return c05gDCT(f[1], trail, f[3], f[4])
+	case "chain":
+		return c05gChain(f[1], trail, f[3])
 	}
 	return true, false, "", "bad descriptor"
 }
@@ -356,6 +542,13 @@ func robC05gRun(c *Ctx) {
 				for _, consume := range []string{"all", "half", "one", "none"} {
 					descs = append(descs, fmt.Sprintf("dct %s %d %s %s", kind, trail, fill, consume))
 				}
+			}
+		}
+	}
+	for _, top := range []string{"AHx", "LZW", "Fl"} {
+		for mode := 0; mode < 3; mode++ {
+			for _, via := range []string{"direct", "page"} {
+				descs = append(descs, fmt.Sprintf("chain %s %d %s 0", top, mode, via))
 			}
 		}
 	}
